@@ -80,6 +80,7 @@ var c20OpNames = []string{
 	"Resolve(regexp('a','(')) fails", "Resolve(missing!.a1.a2...a100) fails", "Resolve(x(1)) fails",
 	"Resolve(__t)", "SetThisValue(__t,3)", "SetThis(fresh {__t:4,___u:5})", "Resolve([__t, this.___u, ___u, this.__t])",
 	"Resolve($e = [])", "Resolve([$e, $a])",
+	"SetThisValue(max,6)", "Resolve([this.max, this.x, max(1, 2)])", "Resolve(x ? $a = 5 : null, $a)", "Resolve((x ? null : ($a = 6)), $a)",
 }
 
 var c20DeepChain = func() string {
@@ -92,7 +93,8 @@ var c20DeepChain = func() string {
 
 var c20Formulas = map[int]string{9: "x", 10: "$a", 11: "$a = x", 12: "$a = 2", 13: "$b = $a", 14: "[$a,$b,x]", 15: "this.x", 16: "this",
 	22: "$a = 7 / 3", 23: "($a ?? 1) * 3", 24: "$a = 9007199254740993", 25: "($a ?? 0) - 9007199254740992", 26: "$a = ($b = 2)", 27: "$a = 2.75", 28: "len(left('abcdef', $a ?? 1))",
-	29: "regexp('a','(')", 30: c20DeepChain, 31: "x(1)", 32: "__t", 35: "[__t, this.___u, ___u, this.__t]", 36: "$e = []", 37: "[$e, $a]"}
+	29: "regexp('a','(')", 30: c20DeepChain, 31: "x(1)", 32: "__t", 35: "[__t, this.___u, ___u, this.__t]", 36: "$e = []", 37: "[$e, $a]",
+	39: "[this.max, this.x, max(1, 2)]", 40: "x ? $a = 5 : null, $a", 41: "(x ? null : ($a = 6)), $a"}
 
 // exact values behind the canonical strings of the model (numbers only)
 var c20Decs = map[string]ref.Dec{}
@@ -239,7 +241,11 @@ func (w *c20World) apply(op int) *eng.Fail {
 		w.ensure()["__t"] = canonImpl(3.0)
 	case op == 34:
 		fresh(map[string]interface{}{"__t": 4.0, "___u": 5.0})
-	case op >= 9 && op <= 16, op >= 22 && op <= 28, op == 32, op == 35, op == 36, op == 37:
+	case op == 38:
+		// a data entry spelled like a builtin: `this.max` is that entry, `max(...)` the builtin
+		w.r.SetThisValue("max", 6.0)
+		w.ensure()["max"] = canonImpl(6.0)
+	case op >= 9 && op <= 16, op >= 22 && op <= 28, op == 32, op == 35, op == 36, op == 37, op >= 39 && op <= 41:
 		src := c20Formulas[op]
 		p, err := cachedParse(src)
 		if err != nil {
@@ -332,6 +338,19 @@ func (w *c20World) apply(op int) *eng.Fail {
 			want = get(m, "__t")
 		case 35:
 			want = "[" + get(m, "__t") + "," + get(m, "___u") + "," + get(m, "___u") + "," + get(m, "__t") + "]"
+		case 39:
+			want = "[" + get(m, "max") + "," + get(m, "x") + ",n2]"
+		case 40:
+			// a statement-like conditional left of a comma: its branch runs, the other does not
+			if get(m, "x") != "null" {
+				w.ensure()["$a"] = "n5"
+			}
+			want = get(w.curMap(), "$a")
+		case 41:
+			if get(m, "x") == "null" {
+				w.ensure()["$a"] = "n6"
+			}
+			want = get(w.curMap(), "$a")
 		case 26:
 			want = "n2"
 			mm := w.ensure()
